@@ -72,6 +72,7 @@ type E7Spec struct {
 	AppendOnly    []AppendOnlySpec   `json:"append_only"`
 	PairedUndo    []FuncRuleSpec     `json:"paired_undo"`
 	Handled       []HandledSpec      `json:"handled_means_filed"`
+	LastOneWins   []FuncRuleSpec     `json:"last_one_wins"`
 }
 
 type FuncRuleSpec struct {
@@ -269,6 +270,9 @@ func runE7(p *Program, sp *Spec, c *Collector) {
 	}
 	for _, h := range t.Handled {
 		runHandledMeansFiled(p, c, h)
+	}
+	for _, lw := range t.LastOneWins {
+		runLastOneWins(p, c, lw)
 	}
 	for _, n := range t.NoExit {
 		runNoExit(p, sp, c, n)
